@@ -15,6 +15,14 @@ fn main() {
         eprintln!("usage: monitor <Cxx> [--tier quick|thorough] [--seed N] [--threads N] [--budget S] [--replay FILE] [--out FILE]");
         std::process::exit(3);
     }
+    if args[1] == "--c19-child" {
+        // fresh-process helper of the C19 process_order sub-monitor
+        std::panic::set_hook(Box::new(|_| {}));
+        let id: u64 = args[2].parse().expect("id");
+        let order: Vec<usize> = args[3].split(',').filter(|s| !s.is_empty()).map(|s| s.parse().expect("order")).collect();
+        rngs_verif_harness::monitors::c19::child_main(id, &order);
+        return;
+    }
     let prop = args[1].clone();
     let mut tier = "quick".to_string();
     let mut seed = 0u64;
@@ -41,7 +49,26 @@ fn main() {
         }
         i += 2;
     }
+    if scale < 1.0 {
+        rngs_verif_harness::util::REDUCED.store(true, std::sync::atomic::Ordering::Relaxed);
+    }
     install_panic_hook();
+    #[cfg(feature = "jlog")]
+    {
+        // a logger that formats (and thereby evaluates) every record
+        struct L;
+        impl log::Log for L {
+            fn enabled(&self, _: &log::Metadata) -> bool { true }
+            fn log(&self, r: &log::Record) {
+                let s = format!("{}", r.args());
+                std::hint::black_box(s);
+            }
+            fn flush(&self) {}
+        }
+        static LOGGER: L = L;
+        let _ = log::set_logger(&LOGGER);
+        log::set_max_level(log::LevelFilter::Trace);
+    }
     let ctx = Ctx {
         tier_thorough: tier == "thorough",
         seed,
